@@ -15,6 +15,7 @@ import (
 	"sort"
 	"strconv"
 	"strings"
+	"sync"
 	"sync/atomic"
 	"testing"
 	"time"
@@ -144,6 +145,17 @@ func vfMaxSegmentID(names []string) uint64 {
 // segment contributes nothing - "all or none" (C10's reading for an interrupted flush) is not enough.
 var vfDamagedMustBeAbsent bool
 
+// vfImageConcurrentSearches > 0: that many goroutines search the reopened image at once before anything else.
+var vfImageConcurrentSearches int
+
+func vfOnes(dim int) []float32 {
+	v := make([]float32, dim)
+	for i := range v {
+		v[i] = 1
+	}
+	return v
+}
+
 func vfCheckCrashImage(root string, seq int, img vfDirImage, conf *vfStoreConf, durable, inflight map[uint32]*vfStoreDoc, everAdded map[uint32]bool, what string) *vfViolation {
 	dir := filepath.Join(root, fmt.Sprintf("img%d", seq))
 	if err := img.writeTo(dir); err != nil {
@@ -165,6 +177,45 @@ func vfCheckCrashImage(root string, seq int, img vfDirImage, conf *vfStoreConf, 
 			st.Close()
 		}
 	}()
+	if vfImageConcurrentSearches > 0 {
+		// the FIRST searches after the reopen arrive together: every segment - loadable or not - is
+		// looked at by several searches at once, and each of them still returns without an error
+		// (a panic on one of the library's goroutines ends the process: reported through the journal)
+		var wg sync.WaitGroup
+		errs := make([]error, vfImageConcurrentSearches)
+		start := make(chan struct{})
+		for g := 0; g < vfImageConcurrentSearches; g++ {
+			wg.Add(1)
+			go func(g int) {
+				defer wg.Done()
+				defer func() {
+					if p := recover(); p != nil {
+						errs[g] = fmt.Errorf("panic: %v", p)
+					}
+				}()
+				<-start
+				for rep := 0; rep < 3 && errs[g] == nil; rep++ {
+					s := st.NewSearch().WithK(vfBigK)
+					switch {
+					case conf.VecKind != "none" && (g%2 == 0 || !conf.HasText):
+						s = s.WithVector(vfOnes(conf.Dim)).WithNProbes(1000)
+					case conf.HasText:
+						s = s.WithText("common")
+					default:
+						s = s.WithMetadata(Gte("n", 0))
+					}
+					_, errs[g] = s.Execute()
+				}
+			}(g)
+		}
+		close(start)
+		wg.Wait()
+		for g, e := range errs {
+			if e != nil {
+				return vfFail("store image [%s] (files %v): concurrent first search %d of %d fails: %v", what, names, g, vfImageConcurrentSearches, e)
+			}
+		}
+	}
 	if v := vfCheckDurable(st, conf, durable, everAdded, "crash image ["+what+"]"); v != nil {
 		v.Msg += fmt.Sprintf(" (files %v)", names)
 		return v
@@ -211,7 +262,7 @@ func vfCheckCrashImage(root string, seq int, img vfDirImage, conf *vfStoreConf, 
 			foundInflight++
 		}
 	}
-	if vfDamagedMustBeAbsent && foundInflight != 0 {
+	if vfDamagedMustBeAbsent && !vfInflightSpansSegments && foundInflight != 0 {
 		return vfFail("store image [%s] (files %v): the segment with the truncated / empty / missing component file contributes %d of its %d documents to search results", what, names, foundInflight, len(ids))
 	}
 	if foundInflight != 0 && foundInflight != len(ids) && !vfInflightSpansSegments {
@@ -465,14 +516,21 @@ func vfC10Run(c vfC10Case, ctx *vfCtx) *vfViolation {
 		for _, n := range cutPoints(len(data)) {
 			img := final.clone()
 			img[name] = data[:n]
-			if v := check(img, fmt.Sprintf("%s cut to %d of %d bytes, everything else complete", name, n, len(data))); v != nil {
+			// a strict prefix: the segment has a truncated component file and is "ignored as a whole"
+			vfDamagedMustBeAbsent = n < len(data)
+			v := check(img, fmt.Sprintf("%s cut to %d of %d bytes, everything else complete", name, n, len(data)))
+			vfDamagedMustBeAbsent = false
+			if v != nil {
 				return v
 			}
 			partialSeen = true
 		}
 		img := final.clone()
 		delete(img, name)
-		if v := check(img, name+" missing, everything else complete"); v != nil {
+		vfDamagedMustBeAbsent = true
+		v := check(img, name+" missing, everything else complete")
+		vfDamagedMustBeAbsent = false
+		if v != nil {
 			return v
 		}
 	}
@@ -480,21 +538,27 @@ func vfC10Run(c vfC10Case, ctx *vfCtx) *vfViolation {
 	for _, cb := range c.Combos {
 		img := final.clone()
 		desc := ""
+		damaged := false
 		for fi, name := range newFiles {
 			f := cb[fi%4]
 			switch {
 			case f < 0:
 				delete(img, name)
 				desc += name + ":missing "
+				damaged = true
 			case f > 1:
 				desc += name + ":complete "
 			default:
 				n := int(f * float64(len(final[name])))
 				img[name] = final[name][:n]
 				desc += fmt.Sprintf("%s:%d/%d ", name, n, len(final[name]))
+				damaged = damaged || n < len(final[name])
 			}
 		}
-		if v := check(img, "combination "+desc); v != nil {
+		vfDamagedMustBeAbsent = damaged
+		v := check(img, "combination "+desc)
+		vfDamagedMustBeAbsent = false
+		if v != nil {
 			return v
 		}
 	}
